@@ -447,7 +447,7 @@ class CursorResultMetaData(ResultMetaData):
                 for metadata_entry in raw
             }
 
-            if len(by_key) != num_ctx_cols:
+            if len(by_key) != num_ctx_cols or len(by_key) != len(raw):
                 # if by-primary-string dictionary smaller than
                 # number of columns, assume we have dupes; (this check
                 # is also in place if string dictionary is bigger, as
@@ -513,6 +513,15 @@ class CursorResultMetaData(ResultMetaData):
                 metadata_entry[MD_LOOKUP_KEY]: metadata_entry
                 for metadata_entry in raw
             }
+            if len(self._keymap) != len(raw):
+                # duplicate names in cursor.description: string access
+                # to them is ambiguous
+                seen_names = set()
+                for metadata_entry in raw:
+                    key = metadata_entry[MD_LOOKUP_KEY]
+                    if key in seen_names:
+                        self._keymap[key] = (None, -1, (), key, key, None, None)
+                    seen_names.add(key)
 
         # update keymap with "translated" names.
         # the "translated" name thing has a long history:
